@@ -259,6 +259,10 @@ class C13Construct(Harness):
                     if tier == "quick" and nd and dt not in (None, "int32", "float32"):
                         continue
                     yield f"cons-{'nd' if nd else '1d'}-w{wk}-d{dt}", dict(weights=wk, dtype=dt, nd=nd)
+        # direct construction with explicit squared errors held in an array of another element type
+        for t0, t1 in (("float32", "int64"), ("float32", "float64"), ("int16", "int64"), ("float16", "float64"), ("int64", "int32")):
+            for nd in (False, True):
+                yield f"direct-{'nd' if nd else '1d'}-{t0}-e{t1}", dict(weights="direct", dtype=t0, edtype=t1, nd=nd)
 
     def declare(self, cx, p):
         x = {"v": cx.real("v"), "k": cx.int("k", 1, 8), "n": cx.int("n", 0, 5)}
@@ -274,6 +278,14 @@ class C13Construct(Harness):
             kw["weights"] = np.asarray([x["n"]], dtype=int)
         elif p["weights"].startswith("float"):
             kw["weights"] = np.asarray([x["k"] / 4.0], dtype=(float if p["weights"] == "float" else p["weights"]))
+        if p["weights"] == "direct":
+            if p["nd"]:
+                H2 = E.mod("physt.histogram_nd").Histogram2D
+                r = E.attempt(H2, [np.asarray([0.0, 1.0]), np.asarray([0.0, 1.0])], np.asarray([[x["n"]]], dtype=p["dtype"]), errors2=np.asarray([[x["k"]]], dtype=p["edtype"]))
+                return {"res": {"raised": r}} if isinstance(r, Raised) else {"res": snapnd(E, r)}
+            H1 = E.mod("physt.histogram1d").Histogram1D
+            r = E.attempt(H1, np.asarray([0.0, 1.0]), np.asarray([x["n"]], dtype=p["dtype"]), np.asarray([x["k"]], dtype=p["edtype"]))
+            return {"res": {"raised": r}} if isinstance(r, Raised) else {"res": snap1d(E, r)}
         if p["dtype"]:
             kw["dtype"] = p["dtype"]
         if p["nd"]:
@@ -293,6 +305,12 @@ class C13Construct(Harness):
             return
         yield "no_exception", "raised" not in r
         if "raised" in r:
+            return
+        if wk == "direct":
+            yield "dtype", r["dtype"] == dt == r["fdtype"] == r["edtype"]
+            val = r["freq"][0][0] if p["nd"] else r["freq"][0]
+            err = r["err2"][0][0] if p["nd"] else r["err2"][0]
+            yield "values_kept", z3.And(cx.eq(val, cx.t(x["n"])), cx.eq(err, cx.t(x["k"])))
             return
         exp = dt or ({"float": "float64", "float32": "float32", "float16": "float16"}.get(wk, "int64"))
         yield "dtype", r["dtype"] == exp == r["fdtype"] == r["edtype"]
